@@ -119,6 +119,8 @@ func (r *DeviceLocal) SetupRemoteDevice(ski string, writeI shipapi.ShipConnectio
 
 	r.AddRemoteDeviceForSki(ski, rDevice)
 
+	verifPoint("SetupRemoteDevice.afterAdd", r)
+
 	// always add subscription, as it checks if it already exists
 	_ = Events.subscribe(api.EventHandlerLevelCore, r)
 
